@@ -45,6 +45,7 @@ Record inv (script : list Z) (s : st) : Prop := mkInv {
   i_exit : child s = CExited -> todo s = [] /\ buf s = [];
   i_late : late (main s) = true -> dead (child s) = true;
   i_nostart : child s = CNotStarted -> main s = PInit;
+  i_init : main s = PInit -> child s = CNotStarted;
   i_pipe : if nosent (pipe s)
            then (mon s = MDone -> pipe s = [] /\ (main s = PAwaitMon \/ main s = PEndRun))
            else (sent_last (pipe s) = true /\ main s = PAwaitMon /\ mon s <> MDone);
@@ -56,14 +57,13 @@ Record inv (script : list Z) (s : st) : Prop := mkInv {
 Lemma inv_init : forall script, inv script (init script).
 Proof.
   intros script. constructor; simpl; auto; try discriminate.
-  - exists []. split; auto.
-  - intros H; discriminate.
+  all: try (exists []; split; auto); try (intros H; discriminate).
 Qed.
 
 Lemma deliveries_app : forall a b, deliveries (a ++ b) = deliveries a ++ deliveries b.
 Proof. induction a as [ | [ | z | z | ] a IH]; intros b; simpl; rewrite ?IH; reflexivity. Qed.
 
-Ltac dinv H := destruct H as [Hscr [lost [Hcons Hlost]] Hexit Hlate Hnost Hpipe Hend Hbusy Hdl].
+Ltac dinv H := destruct H as [Hscr [lost [Hcons Hlost]] Hexit Hlate Hnost Hinit Hpipe Hend Hbusy Hdl].
 
 Lemma step_inv : forall boot script s l, inv script s -> inv script (step boot s l).
 Proof.
@@ -73,8 +73,7 @@ Proof.
   - (* StartProc *)
     destruct mp; try exact H. dinv H; simpl in *.
     constructor; simpl; auto; try discriminate.
-    + exists lost. split; auto. intros _. destruct ch; try (apply Hlost; discriminate).
-      specialize (Hlate). apply Hlost. discriminate.
+    + exists lost. split; auto. intros _. apply Hlost. rewrite (Hinit eq_refl). discriminate.
     + intros Hc; discriminate.
     + destruct (nosent pp); [ | destruct Hpipe as [_ [E _]]; discriminate].
       intros Hm. destruct (Hpipe Hm) as [_ [E | E]]; discriminate.
@@ -206,7 +205,7 @@ Lemma complete_in_order : forall boot script ls,
   delivered s = script /\ emitted s = script /\ deliveries (log s) = script.
 Proof.
   intros boot script ls s Hm Hc. pose proof (run_inv boot script ls) as H. fold s in H.
-  destruct H as [Hscr [lost [Hcons Hlost]] Hexit Hlate Hnost Hpipe Hend Hbusy Hdl].
+  destruct H as [Hscr [lost [Hcons Hlost]] Hexit Hlate Hnost Hinit Hpipe Hend Hbusy Hdl].
   specialize (Hend Hm). destruct (Hexit Hc) as [Htd Hbf].
   assert (Hp : pipe s = []).
   { destruct (nosent (pipe s)) eqn:E.
@@ -226,7 +225,7 @@ Lemma prefix_always : forall boot script ls,
   deliveries (log s) = delivered s.
 Proof.
   intros boot script ls s. pose proof (run_inv boot script ls) as H. fold s in H.
-  destruct H as [Hscr [lost [Hcons Hlost]] Hexit Hlate Hnost Hpipe Hend Hbusy Hdl].
+  destruct H as [Hscr [lost [Hcons Hlost]] Hexit Hlate Hnost Hinit Hpipe Hend Hbusy Hdl].
   repeat split.
   - eexists. exact Hcons.
   - eexists. exact Hscr.
@@ -348,7 +347,7 @@ Proof.
   intros boot script ls l Hm. unfold run, run_from in *. rewrite fold_left_app. simpl.
   pose proof (run_inv boot script ls) as H. unfold run, run_from in H.
   set (s := fold_left (step boot) ls (init script)) in *.
-  destruct H as [_ _ _ _ _ _ Hend _ _]. specialize (Hend Hm).
+  destruct H as [_ _ _ _ _ _ _ Hend _ _]. specialize (Hend Hm).
   destruct s as [td em bf pp ch wd mn dl mp lg]. simpl in *. subst mp mn.
   destruct l; simpl; try reflexivity.
   - destruct ch; try reflexivity. destruct td; try reflexivity. destruct (boot && false); reflexivity.
@@ -472,7 +471,7 @@ Proof.
   pose proof (run_inv boot script ls1) as H. unfold run, run_from in H.
   set (s := fold_left (step boot) ls1 (init script)) in *.
   assert (W : winv (step boot s KillMidWrite)).
-  { destruct H as [_ _ _ Hlate _ Hpipe Hend _ _].
+  { destruct H as [_ _ _ Hlate _ _ Hpipe Hend _ _].
     destruct s as [td em bf pp ch wd mn dl mp lg]. simpl in *. subst ch. simpl.
     assert (Hnl : late mp = false).
     { destruct (late mp) eqn:E; auto. specialize (Hlate eq_refl). discriminate. }
